@@ -56,7 +56,8 @@ pub fn awkward(rng: &mut Rng, lo: f64, hi: f64, signed: bool) -> f64 {
 pub const ODD_NAMES: &[&str] = &[
     "", " ", "x", "y", "é", "x\"y", "a b", "back\\slash", "名前", "\u{1F600}", "fx_eurusd",
     "tab\there", "new\nline", "very_long_variable_name_0123456789_abcdefghijklmnopqrstuvwxyz",
-    "0", "-1", "null", "{\"a\":1}", "v0", "v1", "v2", "v3",
+    "0", "-1", "null", "{\"a\":1}", "v0", "v1", "v2", "v3", "a,b", "a", "b", "a|b", ",", "x,y",
+    "東京証券取引所の休日カレンダーの名前です", "€€€€€€€€€€€€€€€€€€€€",
 ];
 
 pub fn odd_names(rng: &mut Rng, count: usize) -> Vec<String> {
